@@ -237,7 +237,60 @@ def unit_unbatched(item):
     return p
 
 
+def unit_torchrl(item):
+    """TorchRL-style stepping (`_torchrl_mode=True`): env.step(td) writes the successor under td["next"].  A depth-first
+    walk over ALL selection orders that re-steps the SAME state object with one action after the other (what tree search
+    and retry loops do): every successor must follow from the selection so far (chosen flags, mask, distinct items, done
+    at the quota) - whatever an earlier step from the same state left behind in td["next"]."""
+    from rl4co.envs import FLPEnv, MCPEnv
+
+    _, key, tier, seed = item
+    spec = SPECS[key]
+    p = Partial()
+    insts = [x for x in spec.instances("quick", seed) if quota_of(spec, x[1]) >= 2][:2]
+    for iid, inst in insts:
+        q = quota_of(spec, inst)
+        td0 = spec.td(inst)
+        if spec.kind == "flp":
+            env = FLPEnv(generator_params=dict(num_loc=len(inst["locs"]), to_choose=q), _torchrl_mode=True)
+        else:
+            base = spec.env(inst)
+            env = MCPEnv(generator=base.generator, _torchrl_mode=True)
+        root = env.reset(td0.clone())
+        bad = None
+        stack = [((), root)]
+        while stack and bad is None:
+            h, td = stack.pop()
+            offered = td["action_mask"].reshape(-1).nonzero().flatten().tolist()
+            done = bool(E.done_vec(td)[0])
+            if done or len(h) >= q:
+                continue
+            for a in offered:  # the same td object is stepped again and again
+                td.set("action", torch.tensor([a]))
+                out = env.step(td)
+                nxt = out["next"].clone()
+                hh = h + (a,)
+                p.add(states=1, transitions=1, evaluations=1, distinct_count=1, traces_validated_against_impl=1)
+                chosen = nxt["chosen"].reshape(-1).tolist() if "chosen" in nxt.keys() else None
+                mask_n = nxt["action_mask"].reshape(-1).tolist()
+                dn = bool(E.done_vec(nxt)[0])
+                if chosen is not None and [bool(x) for x in chosen] != [i in set(hh) for i in range(len(chosen))]:
+                    bad = ("bookkeeping", f"after {list(hh)} (state re-stepped) td['chosen'] marks {[i for i, c in enumerate(chosen) if c]}")
+                elif any(mask_n[i] for i in hh):
+                    bad = ("mask", f"after {list(hh)} (state re-stepped) the mask still offers {[i for i in hh if mask_n[i]]}")
+                elif dn != (len(hh) >= q):
+                    bad = ("done", f"after {list(hh)} done={dn}, quota {q}")
+                if bad:
+                    p.violation(sig(PID, spec, bad[0], "torchrl_mode_restep"), dict(kind="sel_torchrl", spec=spec.key, instance_id=iid, instance=inst, actions=list(hh)), f"{spec.key} {iid} (_torchrl_mode, same state stepped repeatedly): {bad[1]}")
+                    break
+                stack.append((hh, nxt))
+        p.outcome(f"{spec.key}|torchrl|{'ok' if bad is None else bad[0]}")
+    return p
+
+
 def dispatch(item):
+    if item[0] == "torchrl":
+        return unit_torchrl(item)
     if item[0] == "unbatched":
         return unit_unbatched(item)
     return unit_mixed(item) if item[0] == "mixed" else unit(item)
@@ -254,13 +307,17 @@ def main(tier):
     items = [(k, tier, seed) for k in SPECS if not only or only in k]
     items += [("mixed", k, tier, seed) for k in ("flp", "mcp") if not only or only in k]
     items += [("unbatched", k, tier, seed) for k in ("dpp", "mdpp") if not only or only in k]
+    items += [("torchrl", k, tier, seed) for k in ("flp", "mcp") if not only or only in k]
     rep.merge_all(pmap(dispatch, items))
-    rep.extra["environments"] = sorted({i[0] if i[0] not in ("mixed", "unbatched") else i[1] for i in items})
+    rep.extra["environments"] = sorted({i[0] if i[0] not in ("mixed", "unbatched", "torchrl") else i[1] for i in items})
     return rep.finish()
 
 
 def replay(rec):
     spec = SPECS[rec["spec"]]
+    if rec.get("kind") == "sel_torchrl":
+        p = unit_torchrl(("torchrl", rec["spec"], "quick", 0))
+        return bool(p.violations), "; ".join(v["msg"] for v in p.violations[:2]) or "successors of a re-stepped state follow from the selection so far"
     if rec.get("kind") == "sel_unbatched":
         p = unit_unbatched(("unbatched", rec["spec"], "thorough", rec.get("seed", 0)))
         return bool(p.violations), "; ".join(v["msg"] for v in p.violations[:2]) or "un-batched episodes select exactly the quota of allowed items"
